@@ -877,6 +877,21 @@ pub fn run(ctx: &Ctx, sink: &mut Sink) {
     if part == "all" || part == "json" {
         part_json(ctx, sink, &mut j);
     }
+    if part == "replay" {
+        // verdict on one text (e.g. a libFuzzer artefact) by the same monitors
+        if let Some(path) = ctx.opt("file") {
+            if let Ok(bytes) = std::fs::read(path) {
+                if let Ok(src) = String::from_utf8(bytes) {
+                    let mut nt = false;
+                    if j.next(&src) {
+                        pipeline(sink, &src, "fuzz-artifact", true, &mut nt);
+                    }
+                    sink.case(&format!("replay|{}", src), nt);
+                    sink.sample_force(json!({"origin": "fuzz-artifact", "source": src}));
+                }
+            }
+        }
+    }
     if part == "all" || part == "complexity" {
         part_complexity(ctx, sink);
     }
